@@ -195,6 +195,8 @@ func BlockElemSize(p unsafe.Pointer) uint64 { return 0 }
 func BlockTypeName(p unsafe.Pointer) string { return "" }
 func AllocBytes() uint64                    { return 0 }
 func ResetAllocBytes()                      {}
+func MaxDepth() uint64                      { return 0 }
+func ResetMaxDepth() uint64                 { return 0 }
 func Steps() uint64                         { return 0 }
 func PoolPolicy(s string)                   {}
 func Note(s string)                         {}
